@@ -3,13 +3,14 @@ CONSTANTS
   NoKey = "<nokey>"
   NoAccept = ""
   AcceptOf <- MCAcceptOf
-  Keys = {"k16", "kEmpty", "k1", "k200", "kColon", "kSpace", "kPunct", "k24", "kDigits", "kEq", "kUtf8", "k1000"}
+  Keys <- KeysAll
   ScriptKey = "k16"
   Modes = {"blocking", "nonblocking"}
   Echoes = {TRUE, FALSE}
   Plans = {"whole", "hdr", "ext", "key", "pay", "each", "bytes"}
   Frames <- FramesThorough
   MaxFrames = 2
+  Spellings <- SpellAll
   Pres = {"none"}
   PushPays <- PushNone
 INIT MCInit
